@@ -10,7 +10,9 @@
 (*                                                                         *)
 (* trace:  L kind nphi ntheta exc func chan gp full ri gref w ne eref      *)
 (*         erefR erefC events                                              *)
-(* event:  ev as exc off cx shape obs k g pv                               *)
+(* event:  ev as exc off cx shape obs nzi k g pv                           *)
+(*         coefficient vectors are shipped sparsely: obs[j] is entry       *)
+(*         nzi[j]; the entries not listed projected to exactly 0           *)
 (***************************************************************************)
 EXTENDS SHT, TLC, Json, IOUtils
 
@@ -20,7 +22,13 @@ Traces == JsonDeserialize(IOEnv.TRACE_FILE).traces
 VARIABLES blk, tid
 vars == <<blk, tid>>
 
-InitState(t) == [func |-> t.func, tag |-> Native(t.kind), gcx |-> FALSE, last |-> 0]
+(* state: the function, its representation tag, whether the grid array held is complex, the index of   *)
+(* the grid observation later ones must agree with, and the expected values of func at the reference   *)
+(* grid points (recomputed only when func changes)                                                      *)
+(* SubSeq forces TLC to evaluate the (otherwise lazy) function once *)
+RefValues(t, func, refs) == SubSeq([p \in DOMAIN refs |-> Value(t.L, t.kind, func, t.chan, refs[p])], 1, Len(refs))
+InitState(t) == [func |-> t.func, tag |-> Native(t.kind), gcx |-> FALSE, last |-> 0,
+                 gexp |-> RefValues(t, t.func, t.gref)]
 
 GaussOK(c) == \A i \in DOMAIN c : Len(c[i]) = 2 /\ AbsI(c[i][1]) <= 400 /\ AbsI(c[i][2]) <= 400
 WellFormed(t) ==
@@ -34,15 +42,14 @@ WellFormed(t) ==
   /\ (t.full => (Len(t.gp) = t.ntheta * t.nphi /\ Len(t.w) = t.ntheta))
   /\ \A i \in DOMAIN t.events : t.events[i].ev \in Events
 
-(* expected values at the reference points: refs[p] holds the harmonics at observation ix[p] *)
-RefValues(t, func, refs) == [p \in DOMAIN refs |-> Value(t.L, t.kind, func, t.chan, refs[p])]
+(* expected values at the reference points: exp[p] belongs to observation ix[p] *)
 Ident(n) == [p \in 1..n |-> p]
 MagOf(exp) == FxMaxOf([p \in DOMAIN exp |-> FxMax(FxAbs(exp[p][1]), FxAbs(exp[p][2]))])
 RefTol(func, exp) == RelQuanta(MagOf(exp)) + SumAbs(func) + AbsQuanta   \* + quantisation of the reference columns
-MatchesRef(t, func, obs, refs, ix) ==
-  LET exp == RefValues(t, func, refs)
-      tol == RefTol(func, exp)
-  IN \A p \in DOMAIN refs : ObsWithin(obs[ix[p]], exp[p][1], exp[p][2], tol)
+MatchesExp(func, obs, exp, ix) ==
+  LET tol == RefTol(func, exp)
+  IN \A p \in DOMAIN exp : ObsWithin(obs[ix[p]], exp[p][1], exp[p][2], tol)
+MatchesRef(t, func, obs, refs, ix) == MatchesExp(func, obs, RefValues(t, func, refs), ix)
 
 ObsMag(obs) == FxMaxOf([p \in DOMAIN obs |-> FxMax(FxAbs(ObsRe(obs[p])), FxAbs(ObsIm(obs[p])))])
 SameGrid(obs, prev) ==
@@ -52,27 +59,32 @@ ImagZero(obs) ==
   LET tol == RelQuanta(ObsMag(obs)) + AbsQuanta
   IN \A p \in DOMAIN obs : Within(ObsIm(obs[p]), FxZero, tol)
 
-(* coefficient vectors against exact Gaussian integers *)
-CoeffsMatch(obs, vec) ==
+(* coefficient vectors against exact Gaussian integers.  An unlisted entry is exactly 0, which is *)
+(* within tol (< 2^40 quanta) of an integer iff that integer is 0.                                 *)
+NziOK(e, n) == /\ Len(e.nzi) = Len(e.obs)
+               /\ \A j \in DOMAIN e.nzi : e.nzi[j] \in 1..n /\ (j > 1 => e.nzi[j - 1] < e.nzi[j])
+CoeffsMatch(e, vec) ==
   LET tol == MaxAbs(vec) * 1024 + AbsQuanta
-  IN \A i \in DOMAIN vec : ObsWithin(obs[i], FxInt(vec[i][1]), FxInt(vec[i][2]), tol)
+      S == {e.nzi[j] : j \in DOMAIN e.nzi}
+  IN /\ \A j \in DOMAIN e.nzi :
+          LET v == vec[e.nzi[j]] IN ObsWithin(e.obs[j], FxInt(v[1]), FxInt(v[2]), tol)
+     /\ \A i \in DOMAIN vec : i \in S \/ vec[i] = GZero
 
-AllWell(obs) == \A p \in DOMAIN obs : ObsWell(obs[p])
 GridShape(t, e) == e.shape = <<t.ntheta, t.nphi>> /\ Len(e.obs) = Len(t.gp)
 
 (* ---- one clause list per event; "" = the event is explained ----------------- *)
 FuncAfter(st, e) == IF e.ev = "Combine" THEN Combine(e.k, st.func, e.g) ELSE st.func
 
-CheckGridInput(t, st, e, what) ==         \* Sample / Combine on the grid: harness-built input, guarded
-  IF ~(GridShape(t, e) /\ AllWell(e.obs)) THEN "OOD harness-" \o what \o "-shape" ELSE
-  IF ~MatchesRef(t, FuncAfter(st, e), e.obs, t.gref, t.ri) THEN "OOD harness-" \o what ELSE ""
+CheckGridInput(t, exp, func, e, what) ==   \* Sample / Combine on the grid: harness-built input, guarded
+  IF ~GridShape(t, e) THEN "OOD harness-" \o what \o "-shape" ELSE
+  IF ~MatchesExp(func, e.obs, exp, t.ri) THEN "OOD harness-" \o what ELSE ""
 
 CheckSynthesis(t, st, e) ==
   IF e.exc # "" THEN "REJECT Raised:" \o e.ev ELSE
-  IF e.off \/ ~AllWell(e.obs) THEN "REJECT OnGrid:" \o e.ev ELSE
+  IF e.off THEN "REJECT OnGrid:" \o e.ev ELSE
   IF ~(GridShape(t, e) /\ e.cx = (st.tag = "ccplx")) THEN "REJECT Shape:" \o e.ev ELSE
-  IF ~MatchesRef(t, st.func, e.obs, t.gref, t.ri) THEN "REJECT SynthRef:" \o e.ev ELSE
-  IF t.kind = "real" /\ ~ImagZero(e.obs) THEN "REJECT RealValued:" \o e.ev ELSE
+  IF ~MatchesExp(st.func, e.obs, st.gexp, t.ri) THEN "REJECT SynthRef:" \o e.ev ELSE
+  IF t.kind = "real" /\ e.cx /\ ~ImagZero(e.obs) THEN "REJECT RealValued:" \o e.ev ELSE
   IF st.last > 0 /\ ~SameGrid(e.obs, t.events[st.last].obs) THEN "REJECT RouteGrid:" \o e.ev ELSE
   IF e.pv /\ ~ParsevalHolds(e.obs, t.w, t.ntheta, t.nphi, Energy(t.L, t.kind, st.func))
      THEN "REJECT Parseval:" \o e.ev ELSE ""
@@ -81,20 +93,22 @@ CheckAnalysis(t, st, e) ==
   LET layout == TagAfter(e.ev, st.tag, t.kind, e.as)
       n == Size(t.L, layout)
   IN IF e.exc # "" THEN "REJECT Raised:" \o e.ev ELSE
-     IF e.off \/ ~AllWell(e.obs) THEN "REJECT OnGrid:" \o e.ev ELSE
-     IF ~(e.shape = <<n>> /\ Len(e.obs) = n) THEN "REJECT Shape:" \o e.ev ELSE
-     IF ~CoeffsMatch(e.obs, Rep(t.L, t.kind, st.func, layout)) THEN "REJECT CoeffExact:" \o e.ev ELSE ""
+     IF e.off THEN "REJECT OnGrid:" \o e.ev ELSE
+     IF ~(e.shape = <<n>> /\ e.cx) THEN "REJECT Shape:" \o e.ev ELSE
+     IF ~NziOK(e, n) THEN "OOD harness-nzi" ELSE
+     IF ~CoeffsMatch(e, Rep(t.L, t.kind, st.func, layout)) THEN "REJECT CoeffExact:" \o e.ev ELSE ""
 
 CheckComplete(t, st, e) ==
   IF e.exc # "" THEN "REJECT Raised:Complete" ELSE
-  IF e.off \/ ~AllWell(e.obs) THEN "REJECT OnGrid:Complete" ELSE
-  IF ~(e.shape = <<NLM(t.L)>> /\ Len(e.obs) = NLM(t.L)) THEN "REJECT Shape:Complete" ELSE
-  IF ~CoeffsMatch(e.obs, Complete(t.L, st.func)) THEN "REJECT CompleteExact" ELSE ""
+  IF e.off THEN "REJECT OnGrid:Complete" ELSE
+  IF ~(e.shape = <<NLM(t.L)>> /\ e.cx) THEN "REJECT Shape:Complete" ELSE
+  IF ~NziOK(e, NLM(t.L)) THEN "OOD harness-nzi" ELSE
+  IF ~CoeffsMatch(e, Complete(t.L, st.func)) THEN "REJECT CompleteExact" ELSE ""
 
 (* (2l+1) * spectrum[l] = P2(l): exact integer oracle, slack relative to the value itself *)
 CheckPower(t, st, e) ==
   IF e.exc # "" THEN "REJECT Raised:PowerSpectrum" ELSE
-  IF e.off \/ ~AllWell(e.obs) THEN "REJECT OnGrid:PowerSpectrum" ELSE
+  IF e.off THEN "REJECT OnGrid:PowerSpectrum" ELSE
   IF ~(e.shape = <<t.L + 1>> /\ Len(e.obs) = t.L + 1) THEN "REJECT Shape:PowerSpectrum" ELSE
   IF \E l \in 0..t.L : P2(t.L, t.kind, st.func, l) >= FB THEN "OOD harness-power-magnitude" ELSE
   IF \E l \in 0..t.L :
@@ -107,21 +121,22 @@ CheckPower(t, st, e) ==
 (* that is exactly the mirrored value of a function with a phi-dependent part is tagged.      *)
 CheckEvalAt(t, st, e) ==
   IF e.exc # "" THEN "REJECT Raised:EvalAt" ELSE
-  IF e.off \/ ~AllWell(e.obs) THEN "REJECT OnGrid:EvalAt" ELSE
+  IF e.off THEN "REJECT OnGrid:EvalAt" ELSE
   IF ~(Len(e.obs) = t.ne /\ e.cx = (st.tag = "ccplx")) THEN "REJECT Shape:EvalAt" ELSE
   IF MatchesRef(t, st.func, e.obs, t.eref, Ident(t.ne)) THEN "" ELSE
   IF HasAzimuthal(t.L, t.kind, st.func)
      /\ MatchesRef(t, st.func, e.obs, IF st.tag = "creal" THEN t.erefR ELSE t.erefC, Ident(t.ne))
   THEN "REJECT EvalRef KF=C07-evalat-phi" ELSE "REJECT EvalRef"
 
-Check(t, st, e) ==
+(* nst: the state after the event (for Combine it carries the new function and its expected values) *)
+Check(t, st, e, nst) ==
   IF ~EnabledEv(e.ev, st.tag, t.kind, st.gcx, e.as) THEN "OOD harness-disabled:" \o e.ev ELSE
-  IF ~Covered(t.L, t.kind, FuncAfter(st, e), t.chan) THEN "OOD harness-uncovered-channel" ELSE
   CASE e.ev = "Load" -> ""
-    [] e.ev = "Sample" -> CheckGridInput(t, st, e, "samples")
+    [] e.ev = "Sample" -> CheckGridInput(t, st.gexp, st.func, e, "samples")
     [] e.ev = "Combine" -> IF ~(GaussOK(e.g) /\ FuncOK(t.L, t.kind, e.g) /\ AbsI(e.k) <= 9
-                                /\ GaussOK(FuncAfter(st, e))) THEN "OOD harness-combine-arg"
-                           ELSE IF st.tag = "grid" THEN CheckGridInput(t, st, e, "combine") ELSE ""
+                                /\ GaussOK(nst.func)) THEN "OOD harness-combine-arg"
+                           ELSE IF ~Covered(t.L, t.kind, nst.func, t.chan) THEN "OOD harness-uncovered-channel"
+                           ELSE IF st.tag = "grid" THEN CheckGridInput(t, nst.gexp, nst.func, e, "combine") ELSE ""
     [] e.ev \in {"Synthesis", "SynthesisPP"} -> CheckSynthesis(t, st, e)
     [] e.ev \in {"Analysis", "AnalysisPP"} -> CheckAnalysis(t, st, e)
     [] e.ev = "Complete" -> CheckComplete(t, st, e)
@@ -130,6 +145,7 @@ Check(t, st, e) ==
 
 StateAfter(t, st, e, i) ==
   [func |-> FuncAfter(st, e),
+   gexp |-> IF e.ev = "Combine" THEN RefValues(t, FuncAfter(st, e), t.gref) ELSE st.gexp,
    tag |-> TagAfter(e.ev, st.tag, t.kind, e.as),
    gcx |-> IF e.ev \in {"Sample", "Synthesis", "SynthesisPP"} \/ (e.ev = "Combine" /\ st.tag = "grid") THEN e.cx
            ELSE st.gcx,
@@ -143,13 +159,15 @@ RECURSIVE Run(_, _, _)
 Run(t, i, st) ==
   IF i > Len(t.events) THEN "ACCEPT"
   ELSE LET e == t.events[i]
-           r == Check(t, st, e)
-       IN IF r # "" THEN r ELSE Run(t, i + 1, StateAfter(t, st, e, i))
+           nst == StateAfter(t, st, e, i)
+           r == Check(t, st, e, nst)
+       IN IF r # "" THEN r ELSE Run(t, i + 1, nst)
 
 Verdict(t) ==
   IF ~WellFormed(t) THEN "OOD harness-malformed" ELSE
   IF t.exc # "" THEN "REJECT Raised:Construct" ELSE
   IF ~GridSufficient(t.L, t.nphi, t.ntheta) THEN "REJECT GridSufficient" ELSE
+  IF ~Covered(t.L, t.kind, t.func, t.chan) THEN "OOD harness-uncovered-channel" ELSE
   LET r == Run(t, 1, InitState(t)) IN
   IF r # "ACCEPT" THEN r ELSE
   IF <<t.nphi, t.ntheta>> # <<NPhiRule(t.L), NThetaRule(t.L)>> THEN "ACCEPT drift=GridRule" ELSE "ACCEPT"
